@@ -6,6 +6,7 @@ import (
 	"go/types"
 	"os"
 	"sort"
+	"strconv"
 	"strings"
 	"time"
 
@@ -270,7 +271,7 @@ func (s *State) key() string {
 	sb.WriteByte('|')
 	ps := make([]string, 0, len(s.phis))
 	for p, i := range s.phis {
-		ps = append(ps, fmt.Sprintf("%s=%d", p.Name(), i))
+		ps = append(ps, fmt.Sprintf("%s=%d", anm(p), i))
 	}
 	sort.Strings(ps)
 	sb.WriteString(strings.Join(ps, ","))
@@ -357,20 +358,20 @@ type LockProblem struct {
 
 // Explorer runs the partitioned exploration of one function.
 type Explorer struct {
-	P        *Program
-	Pure     *Purity
-	Fn       *ssa.Function
-	Info     *FuncInfo
-	Hooks    Hooks
-	MaxNodes int
-	Nodes    int
-	Exceeded bool
-	LockProblems []LockProblem
+	P             *Program
+	Pure          *Purity
+	Fn            *ssa.Function
+	Info          *FuncInfo
+	Hooks         Hooks
+	MaxNodes      int
+	Nodes         int
+	Exceeded      bool
+	LockProblems  []LockProblem
 	closureAllocs map[*ssa.Alloc]bool
 	// Inline decides whether a static call to a first-party function is explored
 	// inline (its body becomes part of the abstract path, parameters bound to
 	// the caller's arguments). nil = never.
-	Inline func(caller, callee *ssa.Function) bool
+	Inline             func(caller, callee *ssa.Function) bool
 	inlinedClosureScan map[*ssa.Function]bool
 }
 
@@ -532,6 +533,7 @@ func (ex *Explorer) AtomOf(st *State, v ssa.Value) *Atom {
 			case token.LEQ:
 				at.X, at.Y, at.Neg = b.S, a.S, true
 			}
+			normalizeIntCompare(at, x)
 			return at
 		}
 	}
@@ -544,6 +546,44 @@ func (ex *Explorer) AtomOf(st *State, v ssa.Value) *Atom {
 	}
 	ce := ex.Canon(st, v)
 	return &Atom{Kind: "bool", X: ce.S, Deps: ce.Deps, Reads: ce.Reads}
+}
+
+// normalizeIntCompare brings an integer comparison against a constant into the
+// single form `X < c` (possibly negated), so that `x <= 1`, `x < 2`, `2 > x`
+// and `!(x >= 2)` are one atom; and, for lengths (never negative), `len < 1`
+// becomes the equality atom `len == 0` that `len(x) == 0` produces.
+func normalizeIntCompare(at *Atom, x *ssa.BinOp) {
+	isInt := func(t types.Type) bool {
+		b, ok := t.Underlying().(*types.Basic)
+		return ok && b.Info()&types.IsInteger != 0
+	}
+	if !isInt(x.X.Type()) {
+		return
+	}
+	parse := func(s string) (int64, bool) {
+		n, err := strconv.ParseInt(s, 10, 64)
+		return n, err == nil && n < 1<<62 && n > -(1<<62)
+	}
+	if c, ok := parse(at.X); ok {
+		if _, both := parse(at.Y); both {
+			return
+		}
+		// c < Y  ==  !(Y < c+1)
+		at.X, at.Y, at.Neg = at.Y, strconv.FormatInt(c+1, 10), !at.Neg
+	}
+	c, ok := parse(at.Y)
+	if !ok {
+		return
+	}
+	if strings.HasPrefix(at.X, "len(") || strings.HasPrefix(at.X, "cap(") {
+		switch {
+		case c <= 0:
+			t := at.Neg // len < 0 is false
+			at.Kind, at.Const = "", &t
+		case c == 1:
+			at.Kind, at.C, at.Y = "eq", "0", "" // len < 1  ==  len == 0
+		}
+	}
 }
 
 // reflexiveTrue: pure equality predicates; f(x, x) is true.
@@ -1383,6 +1423,25 @@ func staticLen(v ssa.Value) (int64, bool) {
 	return 0, false
 }
 
+// ResolveDeep is Resolve that also looks through the results of inlined
+// helper calls (the value the helper returned on this abstract path). The
+// result may belong to the helper's body: use it for identity / shape
+// questions (which alloc, which call), not for canonicalisation.
+func (ex *Explorer) ResolveDeep(st *State, v ssa.Value) ssa.Value {
+	for i := 0; i < 8; i++ {
+		r := ex.Resolve(st, v)
+		if mi, ok := r.(*ssa.MakeInterface); ok {
+			_ = mi
+		}
+		ce := resCE(st, r)
+		if ce == nil || ce.V == nil || ce.V == r {
+			return r
+		}
+		v = ce.V
+	}
+	return ex.Resolve(st, v)
+}
+
 // resolveKeepBox resolves phis and tracked locals like Resolve but stops at
 // the boxing of a concrete value into an interface.
 func (ex *Explorer) resolveKeepBox(st *State, v ssa.Value) ssa.Value {
@@ -1582,7 +1641,7 @@ func (ex *Explorer) carryNil(st *State, pred, b *ssa.BasicBlock) map[*ssa.Phi]in
 
 func (ex *Explorer) applyCarry(st *State, carry map[*ssa.Phi]int) {
 	for p, n := range carry {
-		x := "φ" + p.Name()
+		x := "φ" + anm(p)
 		st.live["nil:"+x] = &Fact{Kind: "nil", X: x, Val: n == 1, Deps: map[ssa.Value]bool{p: true}, Epoch: st.epoch}
 	}
 }
